@@ -25,6 +25,8 @@ TRUSTED = [
     "extractor translate/extract_threadsafe.py (function-pointer table, entry points, the three switches, first statement and "
     "detector calls of every switched function; constructor / destructor / releaseBeforeFailing of MemLeakScopedMutex, the flag's "
     "initialiser and MemoryLeakWarningReporter::fail as statement lists; shape of ScopedMutexLock / SimpleMutex)",
+    "which outputs allocate through operator new in printFailure (model parameter Out.alloc; exercised: the fixture's string buffer "
+    "= no, the real JUnitTestOutput = yes); that the console / TeamCity outputs do not is read from the source, not exercised",
     "pthread mutex semantics, the C++ memory model and setjmp/longjmp (modelled: acquire blocks while held; longjmp skips destructors "
     "and everything after failWith)",
     "g++ ThreadSanitizer for the race observations on the explored schedules",
@@ -50,7 +52,10 @@ RULE = ("1-16 pthreads, each running a generated script of new / new[] / nothrow
         "misuse class x release wrapper in thread-safe mode followed by multi-threaded phases under the 6 s progress watchdog; "
         "misuse-row: 2-6 misuses in a row; misuse-switch: misuse, plain overloads (misuse there), thread-safe again (also through "
         "save/restore), misuse, threads; misuse-concurrent (runm): the test's own thread reports a misuse WHILE 2-16 worker threads "
-        "are inside the wrappers; malformed stream: lines with wrong owners, "
+        "are inside the wrappers; misuse-junit: the misuse raised inside a nested real test whose result goes to a REAL "
+        "JUnitTestOutput (file seams stubbed), whose printFailure allocates through operator new - in thread-safe mode through "
+        "the locked wrapper on the reporting thread - in thread-safe and default mode, alone, in rows and followed by threads "
+        "(2 s watchdog inside the op); malformed stream: lines with wrong owners, "
         "unknown labels, bad thread ids (must be skipped); wiring stream: histories of on/off and balanced "
         "saveAndDisable/restore cycles (single, nested, repeated) and the fresh-process history (thread-safe mode switched on "
         "before the first tracked allocation, so the cycle inside the first getGlobalDetector() runs under it), each followed by a "
@@ -416,6 +421,29 @@ def misuse_concurrent_case(rng, tier):
     return ops
 
 
+def misuse_junit_case(rng, tier, threadsafe):
+    """a misuse whose failure is recorded by the real JUnit output (printFailure allocates through operator new), mixed
+    with misuses recorded by the fixture's string buffer, then work from several threads"""
+    g = Gen(rng)
+    g.macro = "none"
+    ops = []
+    if threadsafe:
+        ops.append("fresh" if rng.random() < 0.1 else "on")
+        if rng.random() < 0.4:
+            ops += g.phase(rng.choice([2, 3]), rng.choice([4, 10]))
+    for _ in range(rng.choice([1, 1, 2, 3])):
+        ops.append("misuse %s%s" % (rng.choice(MISUSES), " junit" if rng.random() < 0.75 else ""))
+    if threadsafe and rng.random() < 0.3:
+        ops += ["off", "misuse %s junit" % rng.choice(MISUSES), "on"]
+    if not threadsafe:
+        ops.append("on")
+    ops += g.phase(rng.choice([2, 3, 4]), rng.choice([6, 16]))
+    ops.append("cleanup")
+    if rng.random() < 0.4:
+        ops.append("misuse %s junit" % rng.choice(MISUSES))
+    return ops
+
+
 def generate(rng, tier):
     quick = tier == "quick"
     out = []
@@ -435,6 +463,17 @@ def generate(rng, tier):
         out.append(("misuse-threadsafe", ["on", "misuse " + k]))
     for _ in range(4 if quick else 12):
         out.append(("misuse-threadsafe", misuse_case(rng, True)))
+    # the failure recorded by an output that allocates through operator new (real JUnit output): smallest form first
+    ms = list(MISUSES)
+    rng.shuffle(ms)
+    for k in (ms[:5] if quick else ms):
+        out.append(("misuse-junit", ["on", "misuse %s junit" % k]))
+    for k in (ms[5:7] if quick else ms):
+        out.append(("misuse-junit", ["misuse %s junit" % k]))
+    for _ in range(5 if quick else 30):
+        out.append(("misuse-junit", misuse_junit_case(rng, tier, True)))
+    for _ in range(2 if quick else 10):
+        out.append(("misuse-junit", misuse_junit_case(rng, tier, False)))
     # every cell of the grid misuse class x release wrapper, each followed by further work under the watchdog
     for rep in range(1 if quick else 4):
         for cell in sorted(MISUSE_GRID):
@@ -481,7 +520,7 @@ def signature(r):
     sig = flow.default_signature(r)
     if sig.startswith("spec:"):
         # one class per message, not one per kind of misuse
-        sig = re.sub(r"\b(misuse|runm) [a-z_]+", r"\1 K", sig)
+        sig = re.sub(r"\b(misuse|runm) [a-z_]+( junit)?", r"\1 K\2", sig)
     return sig
 
 
@@ -527,6 +566,8 @@ def observe(r, rep):
         elif l.startswith("> misuse"):
             rep.count("misuse." + w[2])
             rep.count("misuse_cell.%s.%s" % ("threadsafe" if on else "default", MISUSE_CELL.get(w[2], w[2])))
+            rep.count("misuse_output.%s.%s" % ("threadsafe" if on else "default",
+                                               "junit(allocates)" if len(w) > 3 and w[3] == "junit" else "string-buffer"))
             if misused:
                 rep.count("misuse.after_an_earlier_misuse")
             misused = True
@@ -536,6 +577,8 @@ def observe(r, rep):
             rep.count("skipped_line")
         elif w and w[0] == "locks":
             rep.count("lock_acquisitions", int(w[1]))
+        elif w and w[0] == "recorded" and len(w) > 1:
+            rep.count("junit_failure_recorded." + w[1])
         elif w and w[0] in ("lockstate", "next"):
             rep.count("%s.%s" % (w[0], w[1]))
         elif w and w[0] == "crash":
